@@ -107,6 +107,7 @@ def fixed_cases():
         yield {'v': ['std', 'deque', [['int', 10], ['int', 20], ['int', 30], ['int', 40], inner], 9], 'n': n, 'width': 40, 'indent': 4, 'std': True}
         yield {'v': ['std', 'odict', [[['int', i], inner] for i in range(4)]], 'n': n, 'width': 40, 'indent': 4, 'std': True}
         yield {'v': ['std', 'counter', [[['str', 'k%d' % i], 9 - i] for i in range(6)]], 'n': n, 'width': 40, 'indent': 4, 'std': True}
+        yield {'v': ['list', [['std', 'structseq', 'terminal_size', [inner, ['dict', [[['int', i], ['int', i]] for i in range(4)]]]], inner]], 'n': n, 'width': 40, 'indent': 4, 'std': True}
         yield {'v': ['list', [['std', 'counter', [[['int', i], 3 + i] for i in range(4)]], ['std', 'mproxy', [[['int', i], inner] for i in range(4)]]]], 'n': n, 'width': 40, 'indent': 4, 'std': True}
         yield {'v': ['std', 'ddict', 'list', [[['int', i], inner] for i in range(4)]], 'n': n, 'width': 40, 'indent': 4, 'std': True}
         yield {'v': ['std', 'chainmap', [[[['int', i], inner] for i in range(4)], [[['str', 'k'], ['int', 0]]]]], 'n': n, 'width': 40, 'indent': 4, 'std': True}
@@ -252,6 +253,9 @@ def truncate(v, N, counts, level=0, trunc_levels=None, sort=False):
         return _t.MappingProxyType({rec(k): rec(v[k]) for k in cut(_sorted_keys(dict(v), sort))})
     if isinstance(v, _t.SimpleNamespace):
         return _t.SimpleNamespace(**{k: rec(x) for k, x in v.__dict__.items()})
+    if isinstance(v, tuple) and hasattr(t, 'n_sequence_fields'):
+        # a struct sequence of at most N fields (os.terminal_size): its fields are all shown, each truncated on its own
+        return t(tuple(rec(x) for x in v))
     if isinstance(v, tuple) and hasattr(t, '_fields'):
         return t(*[rec(x) for x in v])
     if isinstance(v, vtypes.Box):
@@ -357,7 +361,7 @@ def oracle(case):
         return core.viol('not-tokenizable', repr(e))
     if got != sorted(counts):
         return core.viol('notice-counts-differ', 'N=%r expected notices %r got %r\n%s' % (n, sorted(counts), got, p.text[:500]))
-    has_comments = '"cmt"' in core.canonical(case.get('v')) or '"tcmt"' in core.canonical(case.get('v'))
+    has_comments = any(s in core.canonical(case.get('v')) for s in ('"cmt"', '"tcmt"', '"structseq"'))       # (struct sequences print their field names as comments)
     if not counts and nwords and not has_comments:
         return core.viol('unexpected-comment', p.text[:400])
     labels = []
